@@ -1,8 +1,8 @@
-//@ assume: Transaction is abstract; transaction::aggregate (decided in C12/aggregate) returns sp_agg(list) or an error; Pool::validate_raw_tx (decided in C14/pool_inner) returns Ok only if the aggregate is valid against the chain state at `header` under `weighting` (sp_valid); Transaction::validate(NoLimit) likewise (sp_valid_nolimit); bucket_transactions (ordering heuristics) and the chain adapter are abstract
+//@ assume: Transaction is abstract; transaction::aggregate (decided in C12/aggregate) returns sp_agg(list) or an error; validity for mining (sp_valid) is the conjunction of three uninterpreted predicates, each established only by its own check: Transaction::validate(weighting) (sp_tx_valid), the chain adapter's validate_tx against the UTXO set (sp_chain_ok) and apply_tx_to_block_sums at `header` (sp_sums_ok); Pool::validate_raw_tx is the REAL text, verified here to establish all three; one error type; bucket_transactions (ordering heuristics) and the chain adapter are abstract
 //@ assume: T6: `vec![]` => Vec::new(); `extra_tx.clone()` on the Option => clone_opt; `candidate_txs.extend(valid_txs.clone())` => extend_copy (appends a copy); `tx.clone()` => the element copied; `txs.extend(extra_tx)` => extend_opt; `for tx in txs` => slice iterator form; `self.entries.iter().map(|x| x.tx.clone()).collect()` => entries_txs (the pool's transactions in order)
 //@ assume: decided here (C14, 'the set offered for mining always assembles into a block within the weight limit that the chain accepts' / 'can all be applied together'): Pool::validate_raw_txs returns a SUBSEQUENCE of the candidates such that, whenever it is non-empty, the aggregate of (extra tx, then exactly the returned transactions) passed validate_raw_tx against `header` under `weighting` -- the last accepted candidate was validated together with everything kept before it; Pool::prepare_mineable_transactions is validate_raw_txs over the bucketed pool with no extra tx, the chain head and the weight limit AsLimitedTransaction(max_weight); Pool::all_transactions_aggregate returns the aggregate of all pool transactions followed by the extra one, validated with no weight limit (or just the extra tx for an empty pool)
-//@ assumed_items: 10
-//@ fns: Pool::validate_raw_txs, Pool::prepare_mineable_transactions, Pool::all_transactions_aggregate
+//@ assumed_items: 11
+//@ fns: Pool::validate_raw_tx, Pool::validate_raw_txs, Pool::prepare_mineable_transactions, Pool::all_transactions_aggregate
 #[derive(Clone, Copy, PartialEq, Eq)]
 pub struct Transaction { pub id: u64 }
 #[derive(Clone, Copy, PartialEq, Eq)]
@@ -11,8 +11,13 @@ pub struct BlockHeader { pub id: u64 }
 pub enum Weighting { AsTransaction, AsLimitedTransaction(u64), AsBlock, NoLimit }
 pub enum PoolError { InvalidTx, Other }
 pub uninterp spec fn sp_agg(txs: Seq<Transaction>) -> Result<Transaction, PoolError>;
-pub uninterp spec fn sp_valid(p: Pool, agg: Transaction, h: BlockHeader, w: Weighting) -> bool;
-pub uninterp spec fn sp_valid_nolimit(t: Transaction) -> bool;
+pub uninterp spec fn sp_tx_valid(t: Transaction, w: Weighting) -> bool;
+pub uninterp spec fn sp_chain_ok(c: Chain, t: Transaction) -> bool;
+pub uninterp spec fn sp_sums_ok(p: Pool, t: Transaction, h: BlockHeader) -> bool;
+/// valid for mining: the tx itself under the weight rule, its inputs / outputs against the chain's UTXO set, and the block sums at `h`
+pub open spec fn sp_valid(p: Pool, agg: Transaction, h: BlockHeader, w: Weighting) -> bool { sp_tx_valid(agg, w) && sp_chain_ok(p.blockchain, agg) && sp_sums_ok(p, agg, h) }
+pub open spec fn sp_valid_nolimit(t: Transaction) -> bool { sp_tx_valid(t, Weighting::NoLimit) }
+pub struct BlockSums { pub id: u64 }
 pub uninterp spec fn sp_bucketed(p: Pool, w: Weighting) -> Seq<Transaction>;
 pub uninterp spec fn sp_chain_head(c: Chain) -> BlockHeader;
 pub mod transaction { use super::*;
@@ -20,7 +25,7 @@ pub mod transaction { use super::*;
     pub fn aggregate(txs: &Vec<Transaction>) -> (r: Result<Transaction, PoolError>) ensures r matches Ok(t) ==> sp_agg(txs@) matches Ok(t2) && t2 == t, r.is_err() ==> sp_agg(txs@).is_err() { unimplemented!() } }
 impl Transaction {
     #[verifier::external_body]
-    pub fn validate(&self, w: Weighting) -> (r: Result<(), PoolError>) ensures r.is_ok() ==> w == Weighting::NoLimit ==> sp_valid_nolimit(*self) { unimplemented!() }
+    pub fn validate(&self, w: Weighting) -> (r: Result<(), PoolError>) ensures r.is_ok() ==> sp_tx_valid(*self, w) { unimplemented!() }
 }
 #[verifier::external_body]
 fn clone_opt(t: &Option<Transaction>) -> (r: Option<Transaction>) ensures r == *t { unimplemented!() }
@@ -30,7 +35,9 @@ fn extend_copy(v: &mut Vec<Transaction>, more: &Vec<Transaction>) ensures final(
 fn extend_opt(v: &mut Vec<Transaction>, more: Option<Transaction>) ensures final(v)@ == (match more { Some(t) => old(v)@.push(t), None => old(v)@ }) { unimplemented!() }
 #[verifier::external_body]
 pub struct Chain { _p: u8 }
-impl Chain { #[verifier::external_body] pub fn chain_head(&self) -> (r: Result<BlockHeader, PoolError>) ensures r matches Ok(h) ==> h == sp_chain_head(*self) { unimplemented!() } }
+impl Chain {
+    #[verifier::external_body] pub fn validate_tx(&self, tx: &Transaction) -> (r: Result<(), PoolError>) ensures r.is_ok() ==> sp_chain_ok(*self, *tx) { unimplemented!() }
+    #[verifier::external_body] pub fn chain_head(&self) -> (r: Result<BlockHeader, PoolError>) ensures r matches Ok(h) ==> h == sp_chain_head(*self) { unimplemented!() } }
 pub struct Pool { pub blockchain: Chain, pub txs: Ghost<Seq<Transaction>> }
 pub open spec fn with_extra(extra: Option<Transaction>, s: Seq<Transaction>) -> Seq<Transaction> { match extra { Some(t) => seq![t] + s, None => s } }
 /// s is a subsequence of all[0..n]
@@ -58,7 +65,11 @@ proof fn lemma_subseq_grow(s: Seq<Transaction>, all: Seq<Transaction>, n: int, k
 }
 impl Pool {
     #[verifier::external_body]
-    fn validate_raw_tx(&self, tx: &Transaction, header: &BlockHeader, weighting: Weighting) -> (r: Result<(), PoolError>) ensures r.is_ok() ==> sp_valid(*self, *tx, *header, weighting) { unimplemented!() }
+    fn apply_tx_to_block_sums(&self, tx: &Transaction, header: &BlockHeader) -> (r: Result<BlockSums, PoolError>) ensures r.is_ok() ==> sp_sums_ok(*self, *tx, *header) { unimplemented!() }
+//@ extract pool/src/pool.rs :: impl Pool::validate_raw_tx
+//@   ensures:
+//@+    r.is_ok() ==> sp_valid(*self, *tx, *header, weighting),
+//@ end
     #[verifier::external_body]
     fn bucket_transactions(&self, weighting: Weighting) -> (r: Vec<Transaction>) ensures r@ == sp_bucketed(*self, weighting) { unimplemented!() }
     #[verifier::external_body]
